@@ -76,4 +76,30 @@ def appendOk (E H : List Entry) (wid : Bytes) (pc : Int) (e : Entry) (H' : List 
   e.refs.all (fun r => has E r && !e.next.contains r) && nodupH e.refs &&
   decide (e.refs.length ≤ log2p1 (max pc 1).toNat)
 
+
+/-- C15: what iteration must emit, stated without the traversal: the causal past of the upper bound,
+    newest first, cut at the lower bound; `amount` keeps the part nearest the lower bound when one is
+    given, otherwise the newest.  (For a strict total order on the entries.) -/
+def iterSpec (k : SortKind) (E : List Entry) (upper : List Hash) (gte gt : Option Hash) (amount : Option Int) : List Entry :=
+  let R := pastOf E upper
+  let R' := R.filterMap (fun r => get? E r.hash)          -- the log's own entry objects
+  let desc := goSort (before k) R'
+  let lower : Option Hash := match gte with | some h => some h | none => gt
+  let cut : List Entry := match lower with
+    | none => desc
+    | some g =>
+      let pre := desc.takeWhile (fun e => e.hash != g)
+      if desc.any (fun e => e.hash == g) && gte.isSome then pre ++ (desc.filter (fun e => e.hash == g)).take 1 else pre
+  match amount with
+  | none => cut
+  | some a =>
+    if a < 0 then cut else
+    match lower with
+    | some _ => if a < cut.length then cut.drop (cut.length - a.toNat) else cut
+    | none => cut.take a.toNat
+
+/-- no upper bound lies in the causal past of another (and none is repeated) -/
+def unrelatedRoots (E : List Entry) (upper : List Hash) : Bool :=
+  nodupH upper && upper.all (fun u => upper.all (fun v => u == v || !(hashes (pastOf E [v])).contains u))
+
 end Model
